@@ -25,6 +25,11 @@ package main
 //      offsets, quad order and flip predicate give outward normals on all axes
 //  K3  dc3v2 emits only behind its degenerate test
 //  K5  per-axis tests in render/dc cover each axis once (copy/paste lint)
+//  K6  every octree corner sample position is one function of the integer lattice index
+//  K7  Populate's lattice pruning never discards a node that overlaps the sampled lattice
+//  K8  dc3v2 voxels tile the box: Min + cells·cellSize ≡ Max, starts advance by cellSize
+//  K9  a child skipped on a distance evaluation: evaluated at the centre of its world box,
+//      threshold not below that box's half diagonal (refuted on lattice configurations)
 //
 // Not decided: QEF placement, distances, the acknowledged boundary holes.
 
@@ -32,6 +37,7 @@ import (
 	"fmt"
 	"go/ast"
 	"go/token"
+	"math"
 	"math/big"
 	"regexp"
 	"strings"
@@ -334,6 +340,8 @@ func checkC19(ctx *Ctx, r *Report, tier string) {
 	checkLeafCornerLattice(ctx, r)
 	checkOctreePruning(ctx, r)
 	checkDCV2(ctx, r)
+	checkVoxelTiling(ctx, r)
+	checkDistanceCulling(ctx, r)
 	n := 0
 	for _, f := range axisLint(ctx, "render/dc") {
 		n++
@@ -1074,4 +1082,248 @@ func minI64(a, b int64) int64 {
 		return a
 	}
 	return b
+}
+
+// ---------------------------------------------------------------- K8: the voxel lattice of the V2 renderer
+
+// checkVoxelTiling: placeVertices visits cells (i,j,k), 0 <= index < cells, and hands each to
+// placeVertex as (cellStart, cellCentre, cellSize). The cells have to tile the sampled box: the
+// start of cell `cells` on every axis is the box's Max (with a fixed nominal size and a
+// truncated cell count a strip at the Max side is never sampled and the mesh is open there),
+// consecutive starts differ by cellSize, the centre is start + size/2.
+func checkVoxelTiling(ctx *Ctx, r *Report) {
+	fn := ctx.ssaFunc("render/dc", "(*DualContouringV2).placeVertices")
+	if fn == nil {
+		r.undecided("K8", "placeVertices", 0, "not found")
+		return
+	}
+	ev := newEval(ctx, "placeVertex", "BoundingBox")
+	ev.evalRoot(fn)
+	es := eventsOf(ev, ".placeVertex")
+	if len(es) != 1 || ev.Exceeded {
+		r.undecided("K8", "placeVertices", fn.Pos(), fmt.Sprintf("%d placeVertex calls, expected 1", len(es)))
+		return
+	}
+	var vecs [][]*Term
+	for _, a := range es[0].Args {
+		if pt := pointTerms(a, 3); pt != nil {
+			vecs = append(vecs, pt)
+		}
+	}
+	if len(vecs) < 3 {
+		r.undecided("K8", "placeVertices", es[0].Pos, "placeVertex is not called with (start, centre, size) vectors")
+		return
+	}
+	start, centre, size := vecs[0], vecs[1], vecs[2]
+	cells := paramName(fn, 2)
+	ok, detail := true, ""
+	for i, ax := range []string{"X", "Y", "Z"} {
+		// the running index of this axis
+		idx := map[string]*Term{}
+		for _, c := range findSub(start[i], func(x *Term) bool {
+			return x.Op == "conv" && len(x.Args) == 1 && x.Args[0].Op == "a" && strings.HasPrefix(x.Args[0].S, "μ")
+		}) {
+			idx[c.Key()] = c
+		}
+		if len(idx) != 1 {
+			ok = false
+			detail += fmt.Sprintf(" axis %s: cell start is not a function of one running index: %s;", ax, shortKey(start[i].Key(), 120))
+			continue
+		}
+		var ik string
+		for k := range idx {
+			ik = k
+		}
+		at := func(t *Term, v *Term) *Term { return substKeys(t, map[string]*Term{ik: v}) }
+		base := at(start[i], K(0))
+		mirror := map[string]*Term{}
+		for _, a := range atomList(base) {
+			if strings.Contains(a, ".Min.") {
+				mirror[a] = A(strings.Replace(a, ".Min.", ".Max.", 1))
+			}
+		}
+		if len(mirror) == 0 {
+			ok = false
+			detail += fmt.Sprintf(" axis %s: cell 0 does not start at a box Min: %s;", ax, shortKey(base.Key(), 100))
+			continue
+		}
+		end := at(start[i], Conv("float64", A(cells+"."+ax)))
+		if !equalRat(stripConv(end), stripConv(substAtoms(base, mirror))) {
+			ok = false
+			detail += fmt.Sprintf(" axis %s: cell number `cells` starts at %s, the box ends at %s;", ax, shortKey(stripConv(end).Key(), 140), shortKey(substAtoms(base, mirror).Key(), 80))
+		}
+		if !equalRat(Sub(at(start[i], K(1)), base), size[i]) {
+			ok = false
+			detail += fmt.Sprintf(" axis %s: consecutive cell starts differ by %s, the cell size passed on is %s;", ax, shortKey(Sub(at(start[i], K(1)), base).Key(), 100), shortKey(size[i].Key(), 100))
+		}
+		if !equalRat(centre[i], Add(start[i], Mul(KR(big.NewRat(1, 2)), size[i]))) {
+			ok = false
+			detail += fmt.Sprintf(" axis %s: centre is not start + size/2;", ax)
+		}
+	}
+	r.check("K8", "placeVertices|cells-tile-the-box", es[0].Pos, ok, "Min + cells·cellSize ≡ Max, starts advance by cellSize, centre = start + size/2 on every axis;"+detail)
+	r.floor("K8", 1)
+}
+
+// ---------------------------------------------------------------- K9: distance based culling of octree nodes
+
+// checkDistanceCulling: when Populate skips a child because the shape's distance at some point
+// exceeds a threshold, the point has to be the centre of the child's world box and the
+// threshold at least the box's half diagonal - of the box this octree really gives the node:
+// relToSDF stretches `cellCounts` cells over the bounding box on each axis, so cells are not
+// cubes. The centre is compared as a rational identity; the bound is *refuted* by evaluating
+// both closed forms on lattice configurations (a configuration with threshold < half diagonal
+// culls a node whose corner region the surface can still cross). No refutation is not a proof:
+// the evidence says how many configurations were tried.
+func checkDistanceCulling(ctx *Ctx, r *Report) {
+	fn := ctx.ssaFunc("render/dc", "(*dcOctree).Populate")
+	rel := ctx.ssaFunc("render/dc", "(*dcOctree).relToSDF")
+	key := "Populate|distance-culling"
+	if fn == nil || rel == nil {
+		r.undecided("K9", key, 0, "Populate or relToSDF not found")
+		return
+	}
+	ev := newEval(ctx, "computeOctreeLeaf")
+	ev.evalRoot(fn)
+	hasEval := func(t *Term) bool {
+		return len(findSub(t, func(x *Term) bool { return x.Op == "call" && strings.HasSuffix(x.S, ".Evaluate") })) > 0
+	}
+	type cull struct {
+		e Event
+		c *Term
+	}
+	var culls []cull
+	for _, e := range ev.Events {
+		if !(strings.HasPrefix(e.Callee, "rec:") && strings.HasSuffix(e.Callee, ".Populate")) && !strings.HasSuffix(e.Callee, ".computeOctreeLeaf") {
+			continue
+		}
+		for _, c := range conjuncts(e.Cond) {
+			if hasEval(c) {
+				culls = append(culls, cull{e, c})
+			}
+		}
+	}
+	if len(culls) == 0 {
+		r.check("K9", key, fn.Pos(), true, "no child is skipped on the strength of a distance evaluation")
+		r.floor("K9", 1)
+		return
+	}
+	evr := newEval(ctx)
+	res, _ := evr.evalRoot(rel)
+	W := pointTerms(res, 3)
+	if W == nil {
+		r.undecided("K9", key, fn.Pos(), "lattice-to-world map is not a closed form")
+		return
+	}
+	idx := paramName(rel, 2)
+	recv := paramName(fn, 0)
+	world := func(ax int, off *Term) *Term {
+		t := substAtoms(W[ax], map[string]*Term{idx + "." + []string{"X", "Y", "Z"}[ax]: off})
+		// relToSDF's receiver and Populate's receiver share their lattice fields
+		return rebuild(t, func(x *Term) *Term {
+			if x.Op == "a" && strings.HasPrefix(x.S, paramName(rel, 0)+".") {
+				return A(recv + strings.TrimPrefix(x.S, paramName(rel, 0)))
+			}
+			return nil
+		})
+	}
+	nRefuted, nCfg := 0, 0
+	for i, cu := range culls {
+		ck := fmt.Sprintf("%s#%d", key, i+1)
+		if !cu.e.Pos.IsValid() {
+			cu.e.Pos = fn.Pos()
+		}
+		g, neg := cu.c, false
+		if g.Op == "not" {
+			g, neg = g.Args[0], true
+		}
+		var abs, T *Term
+		visitedIfSmall := false
+		if g.Op == "cmp" && len(g.Args) == 2 {
+			isAbs := func(x *Term) bool { return x.Op == "call" && x.S == "math.Abs" && hasEval(x) }
+			switch {
+			case isAbs(g.Args[0]) && !hasEval(g.Args[1]):
+				abs, T = g.Args[0], g.Args[1]
+				visitedIfSmall = (neg && (g.S == ">" || g.S == ">=")) || (!neg && (g.S == "<" || g.S == "<="))
+			case isAbs(g.Args[1]) && !hasEval(g.Args[0]):
+				abs, T = g.Args[1], g.Args[0]
+				visitedIfSmall = (neg && (g.S == "<" || g.S == "<=")) || (!neg && (g.S == ">" || g.S == ">="))
+			}
+		}
+		if abs == nil || !visitedIfSmall || abs.Args[0].Op != "call" || len(abs.Args[0].Args) != 1 || abs.Args[0].Args[0].Op != "agg" || len(abs.Args[0].Args[0].Args) != 3 {
+			r.undecided("K9", ck, cu.e.Pos, "a child is skipped depending on a distance evaluation, but not in the form |d(centre)| > threshold: "+shortKey(cu.c.Key(), 160))
+			continue
+		}
+		C := abs.Args[0].Args[0].Args
+		// the child node
+		var child Val
+		if p, ok := cu.e.Args[0].(*Ptr); ok && p.Obj != nil {
+			child = getPath(cu.e.State.mem[p.Obj], p.Path)
+		} else if tp, ok := cu.e.Args[0].(*Tuple); ok && len(tp.Elems) > 0 {
+			if p, ok := tp.Elems[0].(*Ptr); ok && p.Obj != nil {
+				child = getPath(cu.e.State.mem[p.Obj], p.Path)
+			}
+		}
+		mo, ok1 := fieldOf(child, "minOffset")
+		sz, ok2 := fieldOf(child, "size")
+		m := pointTerms(mo, 3)
+		s, _ := sz.(*Term)
+		if !ok1 || !ok2 || m == nil || s == nil {
+			r.undecided("K9", ck, cu.e.Pos, "the skipped child's lattice position is not in closed form")
+			continue
+		}
+		okC, detail := true, ""
+		var half []*Term
+		for ax := 0; ax < 3; ax++ {
+			lo, hi := world(ax, m[ax]), world(ax, Add(m[ax], s))
+			if !equalRat(stripConv(C[ax]), stripConv(Mul(KR(big.NewRat(1, 2)), Add(lo, hi)))) {
+				okC = false
+				detail += fmt.Sprintf(" axis %d: distance is taken at %s;", ax, shortKey(C[ax].Key(), 100))
+			}
+			half = append(half, Mul(KR(big.NewRat(1, 2)), Sub(hi, lo)))
+		}
+		r.check("K9", ck+"|distance-taken-at-the-node-centre", cu.e.Pos, okC, "the evaluation point is the centre of the child's world box;"+detail)
+		// the bound, on lattice configurations
+		bad, tried := "", 0
+		for _, M := range []float64{4, 8, 16, 64} {
+			for _, cc := range [][3]float64{{1, 1, 1}, {1, 0.5, 0.5}, {1, 0.25, 1}, {0.5, 1, 0.25}, {0.25, 0.5, 1}} {
+				for _, bb := range [][3]float64{{2, 2, 2}, {4, 1, 1}, {1, 3, 2}, {1, 1, 5}} {
+					for sz := 2.0; sz <= M; sz *= 2 {
+						env := map[string]float64{recv + ".meshSize": M, recv + ".size": sz}
+						for ax, a := range []string{"X", "Y", "Z"} {
+							env[recv+".minOffset."+a] = 0
+							env[recv+".cellCounts."+a] = math.Max(1, M*cc[ax])
+							env["call:d.BoundingBox().Min."+a] = -bb[ax] / 2
+							env["call:d.BoundingBox().Max."+a] = bb[ax] / 2
+						}
+						tv, ok := evalFloat(stripConv(T), env)
+						h2 := 0.0
+						for ax := 0; ax < 3 && ok; ax++ {
+							var hv float64
+							hv, ok = evalFloat(stripConv(half[ax]), env)
+							h2 += hv * hv
+						}
+						if !ok {
+							continue
+						}
+						tried++
+						if tv < math.Sqrt(h2)*(1-1e-9) {
+							nRefuted++
+							if len(bad) < 300 {
+								bad += fmt.Sprintf(" mesh %g, cells (%g,%g,%g), box %gx%gx%g, node size %g: threshold %.4g < half diagonal %.4g;", M, env[recv+".cellCounts.X"], env[recv+".cellCounts.Y"], env[recv+".cellCounts.Z"], bb[0], bb[1], bb[2], sz, tv, math.Sqrt(h2))
+							}
+						}
+					}
+				}
+			}
+		}
+		nCfg += tried
+		if tried == 0 {
+			r.undecided("K9", ck+"|threshold-covers-the-half-diagonal", cu.e.Pos, "threshold or box extent could not be evaluated: "+shortKey(T.Key(), 120))
+			continue
+		}
+		r.check("K9", ck+"|threshold-covers-the-half-diagonal", cu.e.Pos, bad == "", fmt.Sprintf("%d lattice configurations (non-cubic boxes, per-axis cell counts): the culling threshold must be at least the half diagonal of the child's world box;%s", tried, bad))
+	}
+	r.Counts["culling_configurations"] = nCfg
+	r.floor("K9", 1)
 }
